@@ -55,6 +55,9 @@ CHECKS = {
  "C14": dict(engine="inidoc", design="5 C14", technique="TLA+ transcription of potable's option merge rule and ConfigParser's override/addition application (IniDoc.tla) checked by TLC against text-editor semantics (HandEdit) for every option sequence; every case replayed through the CLI and ConfigParser(overrides=, additional=) and compared with tabulating the hand-edited file; --list-items/--item-value compared with the edited document",
    text="EditsAreHandEdits and ListEachOnce for every sequence of <=2 (quick) / <=3 (thorough) options over 3 sections x 3 keys x 2 key spellings x 2 values (one empty), 2 base files; each case rendered under two themes (pair model; EAM model whose sections share key texts) and replayed: outcome class and output bytes equal those of the hand-edited file, listing equals the edited document.",
    note="Options of different kinds are unordered on the command line (overrides, removals, additions); an emptied section may keep or lose its header; identical --remove-item options count once. Defect F06 repaired."),
+ "C16": dict(engine="validate", design="5 C16", technique="TLA+ pipeline model of a potable run (Validate.tla: stages in code order, 95 malformation operators with the stage that must notice them, lazy evaluation stages after the output is opened; MalformedIsConfigError, ValidIsAccepted, RejectedMeansNoTable) checked by TLC; every operator rendered on well-formed base models and pushed through Configuration.read+write and the CLI",
+   text="Every operator of the catalogue (non-INI text, placeholders, malformed species keys, unknown target/form/modifier/interpolation, arity, grid contradictions and degenerate grids, missing sections, spline part count / parameters / r_min, trans arguments, table-form data, species values, signature and formula errors that only surface at evaluation time) in 1-3 concrete variants on pair / DL_POLY / EAM / FS / ADP models must end in a ConfigurationException (API) and exit status 2 with 'configuration error - ' (CLI) with no output left behind; all 14 documented target spellings, a made-up species with [Species] data and 9 well-formed definitions on 5 families must be accepted.",
+   note="The catalogue is the enumerated one (DESIGN appendix C); unknown keys / sections that the code ignores and a custom form named like an expression-library built-in are not in the statement's list and not asserted. 17 defect groups repaired (F10a-p, F15)."),
  "C17": dict(engine="layout", design="5 C17", technique="TLA+ fault model (Layout.tla: EvalFails at every evaluation k, flush discipline per writer) model-checked with TLC; every failing position replayed on the real writers through recording file objects, the potable CLI with a formula leaving its domain, and a second write() on the same object",
    text="TLC checks AllOrNothing / WholeOrNothing for every writer model and every failing evaluation k; the replay makes the k-th evaluation of the real write raise for every k of every model (API routes), makes a formula leave its domain at first/middle/last grid index of every function slot (Configuration and CLI routes, with a pre-existing output file), and requires an empty sink / empty-or-absent file, and that a later write() of the same object emits the whole table or nothing.",
    note="Fault = exception from a user function evaluation; I/O errors of the file system are out of scope. Three genuine defects found and repaired (known_findings.json F11a, F11b, F17)."),
@@ -105,6 +108,7 @@ ENGINES = {
  "layout": "TLC on spec/Layout.tla (writer step machines x consumer models x fault model) + replay of every emitted case through the real code",
  "multirange": "TLC on spec/MultiRange.tla + replay of every listing on the real multi-range classes",
  "forms": "TLC on spec/Builtin.tla + replay through the four access routes in a fresh process",
+ "validate": "TLC on spec/Validate.tla + replay of every malformation operator and of the valid models through the API and the CLI",
  "session": "TLC on spec/Session.tla + fresh-process references under several hash seeds + in-process histories",
  "splines": "TLC on spec/Spline.tla + replay on the spline classes, modifier and as.buck4",
  "tables": "TLC on spec/TableForm.tla + replay on TableReader, plot helpers and [Table-Form]",
